@@ -58,8 +58,8 @@ def enum_cls(name: str):
 
 
 def enum_names(name: str) -> List[str]:
-    """defined member names, in definition order (deterministic)"""
-    return [m.name for m in enum_cls(name)]
+    """defined member names, SORTED BY NAME: independent of the order in which a (refactored) library lists them"""
+    return sorted(m.name for m in enum_cls(name))
 
 
 def member(name: str, member_name: str):
@@ -570,6 +570,21 @@ def expected_class_name(kind: str) -> str:
     }[kind]
 
 
+def expected_class(kind: str):
+    """the public PDU class a parsed burst of this kind must carry (subclasses are fine)"""
+    name = expected_class_name(kind)
+    mod = {
+        "CSBK": "okdmr.dmrlib.etsi.layer2.pdu.csbk",
+        "DataHeader": "okdmr.dmrlib.etsi.layer2.pdu.data_header",
+        "PIHeader": "okdmr.dmrlib.etsi.layer2.pdu.pi_header",
+        "FullLinkControl": "okdmr.dmrlib.etsi.layer2.pdu.full_link_control",
+        "Rate12Data": "okdmr.dmrlib.etsi.layer2.pdu.rate12_data",
+        "Rate34Data": "okdmr.dmrlib.etsi.layer2.pdu.rate34_data",
+        "Rate1Data": "okdmr.dmrlib.etsi.layer2.pdu.rate1_data",
+    }[name]
+    return getattr(importlib.import_module(mod), name)
+
+
 # ---------------------------------------------------------------------------------------------- field dump
 
 
@@ -617,3 +632,126 @@ def diff_dumps(a: Any, b: Any, path: str = "") -> List[str]:
     if type(a) is not type(b) or a != b:
         return [f"{path[:-1]}: {a!r} != {b!r}"]
     return []
+
+
+# ---------------------------------------------------------------------------------------------- payload field comparison
+#
+# "The same payload field values" = the PDU's PROTOCOL fields, not every attribute an implementation happens to keep:
+#   (a) every field the generator generated for the variant: the parsed PDU's attribute of that name is compared with
+#       the GENERATED value (converted the way build() converts it, normalised by dump()); the check fields the library
+#       computed (crc / crc9 / 24-bit full-LC field) are compared with the assembled object's value;
+#   (b) every public, non-callable attribute that exists on BOTH the assembled and the parsed object and is not None on the
+#       assembled one (opcode, format, defaults of fields the variant does not carry ...), recursively for nested objects.
+# Skipped, never a violation: attributes that are None or absent on the assembled object and were not passed by build()
+# (diagnostics such as source_bits / raw / counters), names starting with "_", validity verdicts (*_ok), callables;
+# an attribute absent on one side is reported as a note.
+
+# constructor keyword used by build() -> attribute name on the object, where they differ
+_ATTR_OF_FIELD = {
+    ("csbk", "fid"): "feature_set",
+    ("flc", "fid"): "feature_set_id",
+    ("flc", "longitude_n"): "longitude",
+    ("flc", "latitude_n"): "latitude",
+}
+_CHECK_ATTRS = {"csbk": ["crc"], "header": ["crc"], "pi": ["crc"], "flc": ["crc"], "rate12": ["crc9"], "rate34": ["crc9"], "rate1": ["crc9"]}
+_MISSING = object()
+
+
+def _is_plain_object(o) -> bool:
+    return hasattr(o, "__dict__") and not isinstance(o, (enum.Enum, type)) and not callable(o)
+
+
+def _public_attrs(o) -> Dict[str, Any]:
+    return {k: v for k, v in vars(o).items() if not k.startswith("_") and not k.endswith("_ok") and not callable(v)}
+
+
+def _unwrap_scalar(got, expected):
+    """an attribute may wrap a generated integer in a small value object (FragmentSequenceNumber(value=...))"""
+    if isinstance(expected, (bool, int)) and _is_plain_object(got) and isinstance(getattr(got, "value", None), (bool, int)):
+        return got.value
+    return got
+
+
+def _expected_of_generated(kind: str, name: str, spec, v):
+    """generated JSON value -> normalised expected value (same conversions as build())"""
+    if spec[0] == "excl":
+        spec = spec[1]
+    t = spec[0]
+    if t == "enum":
+        return dump(member(spec[1], v))
+    if t == "bytes":
+        return "x:" + v
+    if t == "bits":
+        return "b:" + v
+    if t in ("u", "bool"):
+        return int(v)
+    if t == "s":
+        step = GPS_LON_STEP if name == "longitude_n" else GPS_LAT_STEP
+        return step * v
+    if t == "svc":
+        return {n: _expected_of_generated(kind, n, sp, v[n]) for n, sp in _svc_fields()}
+    raise AssertionError(spec)
+
+
+def _diff_value(got, expected, path: str, out: List[str]):
+    if isinstance(expected, dict):  # nested generated object (service options): only the generated keys
+        for k, ev in expected.items():
+            gv = getattr(got, k, _MISSING) if not isinstance(got, dict) else got.get(k, _MISSING)
+            if gv is _MISSING:
+                out.append(f"note:{path}.{k} absent on parsed object")
+            else:
+                _diff_value(gv, ev, f"{path}.{k}", out)
+        return
+    g = dump(_unwrap_scalar(got, expected))
+    if type(g) is not type(expected) or g != expected:
+        out.append(f"{path}: parsed {g!r} != generated {expected!r}")
+
+
+def _diff_common(assembled, parsed, path: str, out: List[str], depth: int = 0):
+    a, p = _public_attrs(assembled), _public_attrs(parsed)
+    for k in sorted(a):
+        av = a[k]
+        if av is None:
+            continue
+        if k not in p:
+            out.append(f"note:{path}{k} absent on parsed object")
+            continue
+        pv = p[k]
+        if _is_plain_object(av) and _is_plain_object(pv) and depth < 3:
+            _diff_common(av, pv, f"{path}{k}.", out, depth + 1)
+            continue
+        da, dp = dump(av), dump(pv)
+        if type(da) is not type(dp) or da != dp:
+            out.append(f"{path}{k}: parsed {dp!r} != assembled {da!r}")
+
+
+def compare_payload_fields(kind: str, variant: str, f: dict, assembled, parsed) -> Tuple[List[str], List[str]]:
+    """(differences, notes) between the parsed PDU and what was generated / assembled"""
+    out: List[str] = []
+    base = kind.split(":")[0]
+    for name, spec in SPEC[(kind, variant)]:
+        if name in ("crc_mode", "crc_free"):
+            continue  # full LC check field: compared below as the assembled object's crc
+        attr = _ATTR_OF_FIELD.get((base, name), name)
+        got = getattr(parsed, attr, _MISSING)
+        if got is _MISSING:
+            out.append(f"note:{attr} absent on parsed object")
+            continue
+        _diff_value(got, _expected_of_generated(kind, name, spec, f[name]), attr, out)
+    for attr in _CHECK_ATTRS[base]:
+        av, pv = getattr(assembled, attr, _MISSING), getattr(parsed, attr, _MISSING)
+        if av is _MISSING or pv is _MISSING:
+            out.append(f"note:{attr} absent on {'assembled' if av is _MISSING else 'parsed'} object")
+        elif dump(av) != dump(pv):
+            out.append(f"{attr}: parsed {dump(pv)!r} != assembled (library-computed) {dump(av)!r}")
+    _diff_common(assembled, parsed, "", out)
+    diffs = [x for x in out if not x.startswith("note:")]
+    notes = sorted({x for x in out if x.startswith("note:")})
+    # the same attribute can be reported by (a) and (b): keep one line per attribute
+    seen, uniq = set(), []
+    for d in diffs:
+        key = d.split(":")[0]
+        if key not in seen:
+            seen.add(key)
+            uniq.append(d)
+    return uniq, notes
